@@ -139,7 +139,9 @@ pub fn gen_hampel(rng: &mut Rng, tier: &Tier) -> Vec<Case> {
         // one sample a tiny (or a huge) step away
         for _ in 0..tier.n(60, 600) {
             let n = rng.range(1, 9) as usize;
-            let thr = *rng.pick(&thresholds);
+            // ... whatever the threshold, the largest finite ones included (the bound is threshold x 0 there)
+            let top = if t == "f32" { f32::MAX as f64 } else { f64::MAX };
+            let thr = if rng.chance(1, 3) { *rng.pick(&[top, top / 4.0 * 3.0, top / 1024.0, 2f64.powi(100), 2f64.powi(-100)]) } else { *rng.pick(&thresholds) };
             let mut c = vec![format!("new 1 hampel N={} thr={} T={}", n, fb(t, thr), t)];
             let (level, step) = if rng.chance(1, 2) {
                 (0.0, 2f64.powi(rng.range(lo, hi) as i32) * if rng.chance(1, 2) { 1.0 } else { -1.0 })
@@ -308,15 +310,15 @@ pub fn gen_daub(rng: &mut Rng, tier: &Tier) -> Vec<Case> {
 /// C19: op programs over the windowed filters instantiated at the instrumented sample type
 pub fn gen_ownership(rng: &mut Rng, tier: &Tier) -> Vec<Case> {
     let mut cases = Vec::new();
-    let kinds = ["median", "mean", "max", "min", "bounds", "convolve", "delay", "cache"];
+    let kinds = ["median", "mean", "max", "min", "bounds", "convolve", "convolve_norm", "delay", "cache"];
     for kind in kinds {
         for _ in 0..tier.n(60, 800) {
             let n = rng.range(1, 6) as usize;
             let mk = |rng: &mut Rng, kind: &str| -> String {
                 match kind {
-                    "convolve" => {
+                    "convolve" | "convolve_norm" => {
                         let c: Vec<String> = (0..n).map(|_| rng.range(-3, 3).to_string()).collect();
-                        format!("convolve c={} T=tracked", c.join(","))
+                        format!("{} c={} T=tracked", kind, c.join(","))
                     }
                     "delay" => format!("delay N={} T=tracked", rng.range(0, 5)),
                     k => format!("{} N={} T=tracked", k, n),
@@ -438,6 +440,11 @@ pub fn gen_ownership(rng: &mut Rng, tier: &Tier) -> Vec<Case> {
             let copy = rng.chance(1, 3);
             if copy {
                 c.push((if rng.chance(1, 2) { "clone 1 2" } else { "gutsrt 1 2" }).to_string());
+            }
+            if rng.chance(1, 3) {
+                // a clone of the filter interrupted by a panicking `T::clone` (the copies made so far must not leak)
+                c.push(format!("clonep 1 {}", rng.range(1, n as i64 + 3)));
+                c.push("live".into());
             }
             c.push(format!("fp 1 {} {}", rng.range(1, 3 * n as i64 + 4), rng.range(-4, 4)));
             c.push("live".into());
@@ -561,6 +568,13 @@ pub fn gen_ownership_small(rng: &mut Rng) -> Vec<Case> {
                 cases.push(c);
             }
             cases.push(vec![format!("new 1 {}", mk(1)), "fp 1 1 3".into(), "drop 1".into(), "live".into()]);
+            // a clone abandoned by a panicking `T::clone`, at every position
+            for k in 1..=4 {
+                cases.push(vec![
+                    format!("new 1 {}", mk(3)), "f 1 2".into(), "f 1 -1".into(), "f 1 5".into(),
+                    format!("clonep 1 {}", k), "live".into(), "drop 1".into(), "live".into(),
+                ]);
+            }
         }
     }
     cases
